@@ -15,7 +15,7 @@ thread_local! {
 
 const POOL_SIZES: [usize; 9] = [1, 2, 3, 4, 8, 16, 5, 7, 32];
 
-fn pool(threads: u8) -> Arc<rayon::ThreadPool> {
+pub(crate) fn pool(threads: u8) -> Arc<rayon::ThreadPool> {
     let n = POOL_SIZES[threads as usize % POOL_SIZES.len()];
     POOLS.with(|p| {
         p.borrow_mut()
@@ -216,6 +216,26 @@ impl<F: Fam> Ctx<F> {
                                         return Err(format!("par_eq/== is true between a map and a copy of the same length in which one key differs (copy.par_eq(map) = {}, map.par_eq(copy) = {})", c.par_eq(m), m.par_eq(&c)));
                                     }
                                 }
+                            }
+                        }
+                    }
+                    // values whose == is not reflexive (f64 NaN): par_eq has to agree with == there too
+                    {
+                        type FM = griddle::HashMap<u32, f64, std::hash::BuildHasherDefault<std::collections::hash_map::DefaultHasher>>;
+                        let mut fm = FM::default();
+                        for (k, v) in expect.iter().take(300) {
+                            fm.insert(*k, *v as f64);
+                        }
+                        let agree = |a: &FM, b: &FM| a.par_eq(b) == (*a == *b);
+                        if !agree(&fm, &fm) || !fm.par_eq(&fm) {
+                            return Err("par_eq(self, self) disagrees with == on a map of float values".to_string());
+                        }
+                        if let Some((k0, _)) = expect.get(rep as usize % expect.len().max(1)).filter(|x| fm.contains_key(&x.0)) {
+                            let plain = fm.clone();
+                            *fm.get_mut(k0).unwrap() = f64::NAN;
+                            let c = fm.clone();
+                            if !agree(&fm, &fm) || !agree(&fm, &c) || !agree(&c, &fm) || !agree(&fm, &plain) || !agree(&plain, &fm) {
+                                return Err(format!("par_eq disagrees with == when a value is NaN: par_eq(self, self) = {}, self == self is {}", fm.par_eq(&fm), fm == fm));
                             }
                         }
                     }
@@ -437,7 +457,7 @@ impl<F: Fam> Ctx<F> {
         self.full_check(s, &[C16])
     }
 
-    pub fn do_set_serde(&mut self, s: usize, in_place: bool) -> Result<(), Fail> {
+    pub fn do_set_serde(&mut self, s: usize, in_place: bool, empty: bool) -> Result<(), Fail> {
         if self.st(s + 2).l() > 0 || (in_place && self.st(3 - s).l() > 0) {
             self.nt(C16);
         }
@@ -465,6 +485,32 @@ impl<F: Fam> Ctx<F> {
             Ok(Err(msg)) => fail!(self, [C16], "serde-mismatch", "{}", msg),
             Ok(Ok(j)) => j,
         };
+        if json.is_some() && empty {
+            // an empty serialised set, too, replaces the previous contents entirely
+            let before = self.sets[dst].set.len();
+            let (r, _obs) = self.observe_set_raw(dst, move |set| {
+                let mut de = serde_json::Deserializer::from_str("[]");
+                serde::Deserialize::deserialize_in_place(&mut de, set).map_err(|e| {
+                    let _s = Suspend::new();
+                    e.to_string()
+                })
+            });
+            match r {
+                Err(p) => fail!(self, [C16], "serde-assert", "deserialize_in_place of an empty sequence panicked: {} at {}", p.msg, p.loc),
+                Ok(Err(e)) => fail!(self, [C16], "serde-mismatch", "deserialize_in_place of an empty sequence failed: {}", e),
+                Ok(Ok(())) => {}
+            }
+            let left = self.sets[dst].set.len();
+            let left_iter = self.sets[dst].set.iter().count();
+            if left != 0 || left_iter != 0 {
+                fail!(self, [C16], "serde-in-place", "deserialize_in_place of an empty sequence left {} element(s) (iter yields {}) of the previous {}", left, left_iter, before);
+            }
+            let live = self.meta[dst + 2].live;
+            let vh = self.meta[dst + 2].vh;
+            self.meta[dst + 2] = Meta::new(vh, live);
+            self.sets[dst].model.clear();
+            self.full_check_set(dst, &[C16])?;
+        }
         if let Some(json) = json {
             // deserialize_in_place replaces the previous contents of the other set entirely
             let jref = &json;
